@@ -42,7 +42,7 @@ static int write_file_data(sqfs_dir_iterator_t *it, const sqfs_dir_entry_t *ent)
 static int write_entry(sqfs_dir_iterator_t *it, const sqfs_dir_entry_t *ent)
 {
 	static unsigned int record_counter;
-	sqfs_xattr_t *xattr = NULL;
+	sqfs_xattr_t *xattr = NULL, *rev = NULL, *next;
 	char *target = NULL;
 	int ret;
 
@@ -62,6 +62,16 @@ static int write_entry(sqfs_dir_iterator_t *it, const sqfs_dir_entry_t *ent)
 		sqfs_free(target);
 		return ret;
 	}
+
+	/* The tar reader builds its xattr list back to front. Emit the records
+	   in reverse, so converting the archive back to an image stores the
+	   attributes in the same order again. */
+	for (; xattr != NULL; xattr = next) {
+		next = xattr->next;
+		xattr->next = rev;
+		rev = xattr;
+	}
+	xattr = rev;
 
 	ret = write_tar_header(out_file, ent, target, xattr, record_counter++);
 	if (ret)
